@@ -24,7 +24,7 @@ def design_size(d):
 def evaluate(designs, stream, spice=False):
     outs = core.run_worker_sharded("c01", [dict(design=d, spice=spice) for d in designs])
     cases = [c_case(d, o) for d, o in zip(designs, outs)]
-    bad = core.coq_eval_cases("C01", stream, IMPORTS, "c01_case", cases, "run_cases chk_c01", chunk=60)
+    bad = core.coq_eval_cases("C01", stream, IMPORTS, "c01_case", cases, "run_cases chk_c01", chunk=(60 if len(cases) <= 600 else 25), timeout=1800)
     return outs, bad
 
 
@@ -40,7 +40,7 @@ def run(run, tier, seed, replay=None):
         if bad:
             run.violation("C01:replay", "replayed case still fails", dict(kind="replay", case=designs[0], impl=outs[0]))
         return
-    n = 300 if quick else 6000
+    n = 300 if quick else 4000
     designs = corpus()
     k = 0
     skipped = 0
@@ -49,7 +49,7 @@ def run(run, tier, seed, replay=None):
         k += 1
         d = D.gen_design(r, size=r.choice([1, 2, 2, 3]) if quick else r.choice([1, 2, 3, 4]))
         # the in-Coq evaluation of the net relation is quadratic in the number of terminal bits: keep designs bounded
-        if len(D.terminals(d)[0]) > (120 if quick else 200):
+        if len(D.terminals(d)[0]) > (120 if quick else 150):
             skipped += 1
             continue
         designs.append(d)
